@@ -77,6 +77,17 @@ Theorem C11_rank_iso_on (p q : nat -> nat) : (forall x, q (p x) = x) -> forall n
   (forall x y, In x (support b1) -> In y (support b1) -> x < y -> p x < p y) -> b2 = bmap p b1.
 Proof. exact (RankIso.C11_rank_iso_on p q). Qed.
 Print Assumptions C11_roundtrip. Print Assumptions C11_rank_iso_on.
+
+(** ... and that hypothesis holds for the text -r prints (each name followed by a newline): the names are distinct non-keyword
+    identifiers of the formula text, so the file lexes back to exactly that list (maximal munch: an identifier followed by a
+    newline is a maximal lexeme, nothing starts at a newline), hence the round trip through the exported TEXT *)
+From Rsbdd Require Import Cli.ExportReads.
+Theorem C11_roundtrip_export fuel fuel' uc o ordfile1 txt out1 out2 :
+  cli fuel uc o ordfile1 txt = CliOk out1 ->
+  cli fuel' uc o (Some (export (out_order out1))) txt = CliOk out2 ->
+  out_header out2 = out_header out1 /\ out_rows out2 = out_rows out1 /\ out_true out2 = out_true out1 /\ out_order out2 = out_order out1.
+Proof. exact (ExportReads.C11_roundtrip_export fuel fuel' uc o ordfile1 txt out1 out2). Qed.
+Print Assumptions C11_roundtrip_export.
 (** the hypotheses are met by an actual round trip: "b & -a" prints the order b, a; the file "b<newline>a" reads back as that
     ordering; the second run prints the same table *)
 Example C11_roundtrip_instance :
